@@ -21,8 +21,8 @@ ASSUMPTIONS = [
     "TypedDict closedness and dropped surplus fixed-tuple members are not demanded; RecursionError/MemoryError are neither results nor violations",
 ]
 PLAN = {"quick": dict(programs=4000, depth=3, pool=14, values=2), "thorough": dict(programs=30000, depth=4, pool=30, values=4)}
-FLOORS = {"quick": {"returned": 150000, "raised": 100000, "corruptions": 150000, "shapes": 4000},
-          "thorough": {"returned": 600000, "raised": 400000, "corruptions": 400000, "shapes": 20000}}
+FLOORS = {"quick": {"returned": 150000, "raised": 100000, "corruptions": 150000, "shapes": 4000, "ill_typed_instances": 4000},
+          "thorough": {"returned": 600000, "raised": 400000, "corruptions": 400000, "shapes": 20000, "ill_typed_instances": 30000}}
 
 
 def judge(sh, spec, x, tsrc, origin, prog=None):
@@ -64,6 +64,27 @@ def canaries(sh):
     prog.drop()
 
 
+def plant(w, inst, depth=0):
+    """Replace the first dict found inside the wire form w (a nested structured member) by inst; None if there is none."""
+    if depth > 6:
+        return None
+    if isinstance(w, list):
+        for k, e in enumerate(w):
+            if isinstance(e, dict):
+                return w[:k] + [inst] + w[k + 1:]
+            r = plant(e, inst, depth + 1)
+            if r is not None:
+                return w[:k] + [r] + w[k + 1:]
+    elif isinstance(w, dict):
+        for k, e in w.items():
+            if isinstance(e, dict):
+                return {**w, k: inst}
+            r = plant(e, inst, depth + 1)
+            if r is not None:
+                return {**w, k: r}
+    return None
+
+
 def run_case(sh, i, plan):
     rng = case_rng(sh, i)
     clear_typelib_caches(also_typing=True)
@@ -96,6 +117,31 @@ def run_case(sh, i, plan):
                 sh.count("corruptions", len(cs))
                 inputs.extend(("corrupt", c) for c in cs)
             inputs.extend(("pool", hostile.pool_item(rng)) for _ in range(plan["pool"]))
+            # instances of the structured classes of this type (the root itself or a nested member) whose fields hold values of
+            # the wrong type: the constructor of a dataclass / NamedTuple / plain class does not validate, unmarshal has to
+            for st in [s_ for s_ in spec.walk() if s_.kind == "struct" and not s_.info["flavour"].startswith("typeddict") and not isinstance(s_.t, str)][:3]:
+                for _ in range(2):
+                    kw = {}
+                    for fname, fspec, _d in st.info["fields"]:
+                        bad = hostile.pool_item(rng)
+                        kw[fname] = None if hasattr(bad, "__next__") else bad
+                    try:
+                        inst = st.t(**kw)
+                    except Exception:  # noqa: BLE001
+                        continue
+                    sh.count("ill_typed_instances")
+                    if st is spec.peel():
+                        inputs.append(("ill-typed-instance", inst))
+                    else:
+                        # put it where the wire form of a valid value has the member (first position found)
+                        try:
+                            with quiet():
+                                w0 = typelib.marshal(vg.value(spec), t=spec.t)
+                        except Exception:  # noqa: BLE001
+                            continue
+                        planted = plant(w0, inst)
+                        if planted is not None:
+                            inputs.append(("ill-typed-instance-nested", planted))
             for origin, x in inputs:
                 if isinstance(x, (types.GeneratorType,)) or hasattr(x, "__next__"):
                     key = (tsrc, "iter", origin)
